@@ -96,6 +96,23 @@ func getEigenvector(eigenvector Vector, eigenvalue ConstScalar, h, u Matrix, b V
   for i := 0; i < k; i++ {
     h.At(i,i).Sub(h.At(i,i), eigenvalue)
   }
+  // repeated eigenvalues lead to zero pivots in the back substitution,
+  // replace them by a small multiple of the largest entry
+  delta := 0.0
+  for i := 0; i <= k; i++ {
+    for j := i; j <= k; j++ {
+      delta = math.Max(delta, math.Abs(h.ConstAt(i,j).GetFloat64()))
+    }
+  }
+  if delta == 0.0 {
+    delta = 1.0
+  }
+  delta *= 2.220446e-16
+  for i := 0; i < k; i++ {
+    if math.Abs(h.ConstAt(i,i).GetFloat64()) < delta {
+      h.At(i,i).SetFloat64(delta)
+    }
+  }
   // copy u
   for i := 0; i < k; i++ {
     b.At(i).Set(h.At(i,k))
